@@ -7,7 +7,6 @@ import (
 	"context"
 	"sync"
 
-	"github.com/efficientgo/core/errors"
 	"github.com/prometheus/prometheus/model/labels"
 
 	"github.com/thanos-community/promql-engine/execution/model"
@@ -153,11 +152,8 @@ func (c *coalesceOperator) loadSeries(ctx context.Context) error {
 					return
 				}
 
-				switch err := e.(type) {
-				case error:
-					errChan <- errors.Wrapf(err, "unexpected error")
-				}
-
+				// Also a panic whose value is not an error fails the query.
+				errChan <- recoveredError(e)
 			}()
 			series, err := c.operators[i].Series(ctx)
 			if err != nil {
